@@ -10,3 +10,6 @@ func VerifMultiplexToUpstream(channels Channels, conn net.Conn) error {
 	ch := &ConnectionHandler{channels: channels}
 	return ch.multiplexToUpstream(conn)
 }
+
+// VerifClientFirstConn wraps conn the way multiplexToUpstream does for a new logical stream.
+func VerifClientFirstConn(conn net.Conn) net.Conn { return newClientFirstConn(conn) }
